@@ -205,7 +205,7 @@ Proof.
       * destruct H as [Hi [Hj Hr]]. rewrite Hi. cbn [negb]. rewrite <- Hj.
         unfold mb_ass_item. destruct (Z.ltb_spec j 0); [lia|]. destruct (Z.leb_spec (zlen W) j); [lia|].
         cbn [orb].
-        destruct v as [bs|bs|]; try (do 2 eexists; repeat split; fail).
+        destruct v as [bs|bs|bs|]; try (do 2 eexists; repeat split; fail).
         destruct bs as [|b0 [|b1 r]]; try (do 2 eexists; repeat split; fail).
         rewrite write_mid by (cbn; lia). change (zlen [b0]) with 1.
         do 2 eexists. split; [reflexivity|]. split; [|reflexivity].
@@ -254,8 +254,43 @@ Proof.
               do 2 eexists. split; [reflexivity|]. split; [|reflexivity].
               replace hi with (lo + zlen bs) by lia. apply zlen_write_mid; lia.
             + do 2 eexists. repeat split. }
+        assert (forall bs,
+          exists w' out,
+            match py_setslice_ptr W a b bs with Some w' => (w', RDone) | None => (W, RErr OutOfModel) end
+              = (w', out) /\ zlen w' = zlen W /\
+            match (let left := if py_bound (zlen W) a 0 <? 0 then 0 else py_bound (zlen W) a 0 in
+                   let right := if zlen W <? py_bound (zlen W) b (zlen W) then zlen W
+                                else py_bound (zlen W) b (zlen W) in
+                   let left0 := if right <? left then right else left in
+                   let count := right - left0 in
+                   if zlen bs <? count then Err OutOfModel
+                   else Ok (write (A ++ W ++ C) (zlen A + left0) (firstn (Z.to_nat count) bs))) with
+            | Ok mem' => (mem', RDone)
+            | Err e => (A ++ W ++ C, RErr e)
+            end = (A ++ w' ++ C, out)) as Hptr.
+        { intros bs. unfold py_setslice_ptr.
+          set (lo := py_bound (zlen W) a 0) in *. set (hi := py_bound (zlen W) b (zlen W)) in *.
+          cbn zeta.
+          destruct (Z.ltb_spec lo 0); [lia|]. destruct (Z.ltb_spec (zlen W) hi); [lia|].
+          pose proof (zlen_nonneg bs) as Hbs.
+          destruct (Z.ltb_spec hi lo).
+          - rewrite Z.max_l by lia. replace (hi - hi) with 0 by lia. replace (lo - lo) with 0 by lia.
+            destruct (Z.ltb_spec (zlen bs) 0); [lia|].
+            change (Z.to_nat 0) with 0%nat. unfold zfirstn at 2. change (Z.to_nat 0) with 0%nat.
+            cbn [firstn]. rewrite write_mid by (cbn; lia). change (zlen []) with 0. rewrite Z.add_0_r.
+            cbn [app]. rewrite !firstn_skipn_id. do 2 eexists. repeat split.
+          - rewrite Z.max_r by lia.
+            destruct (Z.ltb_spec (zlen bs) (hi - lo)); [do 2 eexists; repeat split|].
+            assert (zlen (firstn (Z.to_nat (hi - lo)) bs) = hi - lo) as Hl.
+            { unfold zlen in *. rewrite firstn_length. lia. }
+            rewrite write_mid by lia. rewrite Hl. replace (lo + (hi - lo)) with hi by lia.
+            do 2 eexists. split; [reflexivity|]. split; [|reflexivity].
+            unfold zfirstn at 2.
+            set (bs' := firstn (Z.to_nat (hi - lo)) bs) in *.
+            replace hi with (lo + zlen bs') by lia.
+            apply zlen_write_mid; lia. }
         unfold mb_ass_slice.
-        destruct v as [bs|bs|]; [apply Hcore|apply Hcore|do 2 eexists; repeat split].
+        destruct v as [bs|bs|bs|]; [apply Hcore|apply Hcore|apply Hptr|do 2 eexists; repeat split].
       * do 2 eexists. split; [reflexivity|]. split; [reflexivity|].
         destruct (unpack_step_refused a b s e Es) as [[Hu _]|[-> [a' [b' [s' [Hu Hs']]]]]].
         -- rewrite Hu. reflexivity.
